@@ -309,6 +309,11 @@ def examine_output_dir_to_determine_current_iteration(output_dir, batch_size):
 
         plate_dirs = sorted(plate_dirs, key=dir_sort_key)
 
+        if len(plate_dirs) == 0:
+            # an iteration directory without plate directories (interrupted before the first
+            # job directory was created, or after an incomplete one was deleted) holds no state
+            continue
+
         current_plate_idx = 0
 
         for idx, plate_dir in enumerate(plate_dirs):
